@@ -169,6 +169,24 @@ pub fn run_mismatch(case: &MismatchCase, dir: &Path) -> CaseResult {
 	if dir.join("nope").exists() {
 		fail!("open-created-directory", "Db::open on a missing path created {:?}", dir.join("nope"))
 	}
+	// an existing directory that holds no database (empty, or with unrelated files)
+	let empty = dir.join("emptydir");
+	let _ = std::fs::remove_dir_all(&empty);
+	std::fs::create_dir_all(&empty).map_err(|e| Failure::new("harness-io", e.to_string()))?;
+	if case.flags & 1 == 1 {
+		std::fs::write(empty.join("notes.txt"), b"not a database").map_err(|e| Failure::new("harness-io", e.to_string()))?;
+	}
+	let before: Vec<String> = file_sizes(&empty).keys().cloned().collect();
+	for read_only in [false, true] {
+		let r = if read_only { Db::open_read_only(&cfg.options(&empty, false)) } else { Db::open(&cfg.options(&empty, false)) };
+		if r.is_ok() {
+			fail!("open-created-database", "Db::open on a directory without a database succeeded")
+		}
+		let after: Vec<String> = file_sizes(&empty).keys().cloned().collect();
+		if after != before {
+			fail!("open-created-files", "Db::open{} on a directory without a database failed but left files behind: {:?} (before: {:?})", if read_only { "_read_only" } else { "" }, after, before)
+		}
+	}
 	out.nontrivial = true;
 	out.label(match case.change {
 		0 => "fewer-columns",
